@@ -679,7 +679,7 @@ pub fn check_queued_cancel(c: &QueuedCancel) -> CheckResult {
             .map_err(|e| Fail::new("harness-listen", e.to_string()))?;
         sock.set_recv_buffer_size(4096).ok();
         sock.set_reuse_address(true).ok();
-        let any: std::net::SocketAddr = "127.0.0.1:0".parse().unwrap();
+        let any: std::net::SocketAddr = crate::util::lo0().as_str().parse().unwrap();
         sock.bind(&any.into()).map_err(|e| Fail::new("harness-listen", e.to_string()))?;
         sock.listen(8).map_err(|e| Fail::new("harness-listen", e.to_string()))?;
         sock.set_nonblocking(true).ok();
